@@ -294,10 +294,16 @@ def contains_any(t) -> bool:
             return True
 
         def visit_instance(self, t):
-            # bare generics / bare `type`
+            # bare `type` is Type[Any]
             if t.type.fullname == "builtins.type":
                 return True
             return super().visit_instance(t)
+
+        def visit_tuple_type(self, t):
+            # the partial fallback `tuple[Any, ...]` is an implementation artifact, not part of the type
+            if t.partial_fallback.type.fullname != "builtins.tuple" and self.query_types(t.partial_fallback.args):
+                return True
+            return self.query_types(t.items)
     return get_proper_type(t).accept(Q())
 
 
